@@ -471,7 +471,7 @@ class Verifier:
             eng.coerce_types(names['self'], fi.cls)
         if outcome[0] == 'return':
             res = outcome[1]
-            ctx = Ctx(eng, old, new, V(eng, st, res))
+            ctx = Ctx(eng, old, new, V(eng, st, res), {'spawns': list(st.spawns)})
             if c.ensures:
                 for nm, cl in c.ensures(ctx):
                     eng.oblige(f"post:{q}:{nm}", 'post', cl)
